@@ -376,9 +376,124 @@ def gen_an_specs(ctx):
     return out
 
 
-RUN = {"gc": run_gc, "an": run_an}
-ORACLE = {"gc": oracle_gc, "an": oracle_an}
-CASES = {"gc": gc_cases, "an": an_cases}
+
+# ------------------------------------------------------------------ several live analyzers / call histories
+ATTRS = ["causality_xy", "causality_yx", "simultaneous_causality", "spectral_matrix"]
+AKEY = {"causality_xy": "xy", "causality_yx": "yx", "simultaneous_causality": "sim"}
+
+
+def pair_refs(T, ij, order, nf):
+    """pairwise function results on the analyzer's own data (computed before any analyzer exists)"""
+    from nitime.analysis.granger import fit_model
+    from nitime.algorithms import autoregressive as ar
+    res = {}
+    for (i, j) in ij:
+        o_, R_, coef, ecov = fit_model(T.data[i], T.data[j], order=order)
+        w, fx2y, fy2x, fxy, Sw = ar.granger_causality_xy(coef, ecov, n_freqs=nf)
+        res[(i, j)] = {"xy": np.array(fx2y), "yx": np.array(fy2x), "sim": np.array(fxy), "Sw": np.array(Sw)}
+    return res
+
+
+def run_multi(spec):
+    """two or three analyzers alive at once (or strictly one after the other), read in the order spec['reads']"""
+    import nitime.analysis as nta
+    try:
+        series = [mk_series(a) for a in spec["analyzers"]]
+        per = []
+        for a, T in zip(spec["analyzers"], series):
+            n = a["nch"]
+            ij = [tuple(p) for p in a["ij"]] if a["ij"] is not None else [(i_, j_) for i_ in range(n) for j_ in range(i_)]
+            per.append({"ij_req": None if a["ij"] is None else [tuple(p) for p in a["ij"]]})
+        live = {}
+        for k, attr in spec["reads"]:
+            a = spec["analyzers"][k]
+            if k not in live:
+                ij = [tuple(p) for p in a["ij"]] if a["ij"] is not None else None
+                live[k] = nta.GrangerAnalyzer(series[k], ij=ij, order=a["order"], n_freqs=a["n_freqs"])
+                per[k]["ij"] = [tuple(int(v) for v in p) for p in live[k].ij]
+            v = getattr(live[k], attr)
+            if attr == "spectral_matrix":
+                per[k]["sm"] = {tuple(int(q) for q in key): np.array(val) for key, val in v.items()}
+            else:
+                per[k][AKEY[attr]] = np.array(v)
+        for k, a in enumerate(spec["analyzers"]):
+            per[k]["res"] = pair_refs(series[k], per[k]["ij"], a["order"], a["n_freqs"])
+            per[k]["nfreq"] = a["n_freqs"] // 2 + 1
+        return {"per": per}
+    except Exception as e:  # noqa
+        return {"err": type(e).__name__, "msg": str(e)[:300]}
+
+
+def oracle_multi(spec, o):
+    if "err" in o:
+        return Fail("C12/GrangerAnalyzer/raises", "raised %s: %s" % (o["err"], o["msg"]), o["err"], "a result")
+    for k, (a, pk) in enumerate(zip(spec["analyzers"], o["per"])):
+        f = oracle_an(a, pk)
+        if f is not None:
+            f.key = f.key.replace("C12/GrangerAnalyzer/", "C12/GrangerAnalyzer/live-analyzers/")
+            f.what = "analyzer %d of %d (%s): %s" % (k, len(spec["analyzers"]), "sequential" if spec.get("sequential") else "interleaved reads", f.what)
+            return f
+        sm = pk["sm"]
+        if set(sm.keys()) != set(pk["ij"]):
+            return Fail("C12/GrangerAnalyzer/live-analyzers/spectral_matrix-keys",
+                        "analyzer %d: spectral_matrix has keys %s, requested pairs %s" % (k, sorted(sm.keys()), sorted(set(pk["ij"]))),
+                        [list(q) for q in sorted(sm.keys())], [list(q) for q in sorted(set(pk["ij"]))])
+        for key, S in sm.items():
+            want = pk["res"][key]["Sw"]
+            if S.shape != want.shape or not np.allclose(S, want, rtol=1e-9, atol=0):
+                return Fail("C12/GrangerAnalyzer/live-analyzers/spectral_matrix",
+                            "analyzer %d: spectral_matrix[%s] is not the pairwise function result on its own model" % (k, key), None, "equal")
+    return None
+
+
+def multi_cases(spec, o):
+    if "err" in o:
+        return []
+    out = []
+    for a, pk in zip(spec["analyzers"], o["per"]):
+        for c in an_cases(a, pk):
+            c.klass = "LIVE/" + c.klass
+            out.append(c)
+    return out[:6]
+
+
+def gen_multi_specs(ctx):
+    rng = ctx.rng
+    out = []
+    base = gen_an_specs(ctx)
+    for i in range(ctx.scale(8, 30)):
+        nA = rng.choice([2, 2, 3])
+        ans = []
+        nch = rng.choice([2, 3])
+        for k in range(nA):
+            a = dict(rng.choice(base))
+            a["nch"] = nch
+            a["seed"] = rng.randint(0, 2 ** 31 - 1)
+            a["n_freqs"] = rng.choice([4, 5, 8])
+            pairs = [(i_, j_) for i_ in range(nch) for j_ in range(nch) if i_ != j_]
+            a["ij"] = None if rng.random() < 0.3 else [list(q) for q in rng.sample(pairs, rng.randint(1, len(pairs)))]
+            a["ijkind"] = "live"
+            m0 = np.eye(nch) * 0.4
+            m0[0, nch - 1] = 0.3
+            a["mix"] = [m0.tolist(), (np.eye(nch) * -0.2).tolist()]
+            ans.append(a)
+        sequential = rng.random() < 0.3
+        reads = [[k, at] for k in range(nA) for at in ATTRS]
+        if sequential:
+            reads = []
+            for k in range(nA):
+                r = [[k, at] for at in ATTRS]
+                rng.shuffle(r)
+                reads += r
+        else:
+            rng.shuffle(reads)
+        out.append({"kind": "multi", "analyzers": ans, "reads": reads, "sequential": sequential})
+    return out
+
+
+RUN = {"gc": run_gc, "an": run_an, "multi": run_multi}
+ORACLE = {"gc": oracle_gc, "an": oracle_an, "multi": oracle_multi}
+CASES = {"gc": gc_cases, "an": an_cases, "multi": multi_cases}
 
 HEADER = ("From Coq Require Import QArith List Bool Arith PrimFloat.\n"
           "From NT Require Import F2Z Lists Close QC Granger C12K.\nImport ListNotations.\n")
@@ -396,7 +511,7 @@ def corpus_specs():
 def run(ctx):
     core.import_nitime()
     ctx.check_props()
-    specs = corpus_specs() + gen_gc_specs(ctx) + gen_an_specs(ctx)
+    specs = corpus_specs() + gen_gc_specs(ctx) + gen_an_specs(ctx) + gen_multi_specs(ctx)
     cases, owners, results = [], [], []
     for si, spec in enumerate(specs):
         o = RUN[spec["kind"]](spec)
@@ -411,13 +526,32 @@ def run(ctx):
         spec, o = results[i]
         f = ORACLE[spec["kind"]](spec, o)
         if f is not None:
-            f.replay = {"entry_point": "nitime.algorithms.granger_causality_xy" if spec["kind"] == "gc" else "nitime.analysis.GrangerAnalyzer",
+            f.replay = {"entry_point": "nitime.algorithms.granger_causality_xy" if spec["kind"] == "gc" else "nitime.analysis.GrangerAnalyzer"
+                        + (" (several analyzers, reads in the order spec.reads)" if spec["kind"] == "multi" else ""),
                         "model_disagrees": i in bad_specs}
             ctx.report_fail(f, Case("", {"spec": spec}))
+    # purity: function-level calls repeated after all the other calls must be bit-identical
+    gidx = [i for i, (sp, _) in enumerate(results) if sp["kind"] == "gc"]
+    nrep = 0
+    for i in ctx.rng.sample(gidx, min(len(gidx), ctx.scale(40, 120))):
+        spec, o = results[i]
+        again = run_gc(spec)
+        nrep += 1
+        same = set(again) == set(o) and all(
+            (np.array_equal(again[k], o[k], equal_nan=True) if isinstance(o[k], np.ndarray) else again[k] == o[k]) for k in o)
+        if not same:
+            f = Fail("C12/purity/granger_causality_xy", "the same function-level call repeated later in the process returned a "
+                     "different result (the result depends on the call history)", None, "bit-identical results")
+            f.replay = {"entry_point": "nitime.algorithms.granger_causality_xy"}
+            ctx.report_fail(f, Case("", {"spec": spec}))
+    ctx.extra["purity_reruns"] = nrep
     ctx.extra["model_impl_disagreements"] = len(bad)
     ctx.extra["oracle_checked_inputs"] = len(results)
     ctx.extra["oracle_only_inputs"] = sum(1 for sp, _ in results if sp.get("oracle_only"))
-    ctx.extra["rule"] = ("seeded generator: stable bivariate AR coefficient sets of order 1..6 (random, three scales, couplings both / "
+    ctx.extra["rule"] = ("histories: two or three GrangerAnalyzer objects on different data / ij lists / n_freqs alive at once with interleaved "
+                         "shuffled reads, or strictly sequential, each result judged against the pairwise function on its own model, "
+                         "spectral_matrix key set = requested pairs; function-level calls repeated at the end must be bit-identical; "
+                         "seeded generator: stable bivariate AR coefficient sets of order 1..6 (random, three scales, couplings both / "
                          "no y->x / no x->y / none), innovation covariances diagonal / correlated / strongly correlated (short dyadics), "
                          "n_freqs 2..9 of both parities (..17 thorough) in Coq and up to 4096 incl. the default 1024 in the oracle; covariances scaled by "
                          "2^-60..2^40; fortran-ordered / strided / integer-covariance / keyword-call variants; analyzer runs on simulated 2-4 channel series with default, "
